@@ -137,6 +137,8 @@ pub struct PolicyWeights {
     /// timing kinds: wall, mono, complex
     pub timing_kind: [u32; 3],
     pub min_wait_permille: u32,
+    /// policy never varies disable_updates per answer (C17: the mock asserts one value per run)
+    pub params_no_disable: bool,
 }
 
 impl Default for PolicyWeights {
@@ -149,6 +151,7 @@ impl Default for PolicyWeights {
             params_vary: 300,
             timing_kind: [1, 1, 2],
             min_wait_permille: 400,
+            params_no_disable: false,
         }
     }
 }
@@ -270,6 +273,11 @@ pub struct Profile {
     pub next_delays_s: Vec<u64>,
     /// storage ops instantaneous regardless of disk.slow (needed by differential rules)
     pub logging: bool,
+    /// C17: admin reconfigurations of the mock server per run (max)
+    pub admin_reconfigs: u32,
+    /// server key configuration: same latest, client's key historical at the server,
+    /// server lacks the key, same id with another key
+    pub key_server: [u32; 4],
 }
 
 impl Profile {
@@ -312,6 +320,8 @@ impl Profile {
             reboot_version: [3, 1],
             next_delays_s: vec![0, 1, 60, 3600, 18000],
             logging: false,
+            admin_reconfigs: 0,
+            key_server: [80, 15, 3, 2],
         }
     }
 }
